@@ -141,6 +141,50 @@ pub fn gen_named(r: &mut Rng) -> NamedCal {
     NamedCal::try_new(&s).unwrap()
 }
 
+/// A named calendar made by the Python-facing constructor from a free spelling of a valid name: mixed case and,
+/// for the padded styles, white space around members and separators. Returns the object (from the clean
+/// name through the core constructor when the Python-facing one refuses the spelling), the spelling and
+/// the labels of what was tried.
+pub fn gen_named_spelled(r: &mut Rng) -> (NamedCal, String, Vec<String>) {
+    let clean = gen_named_string(r);
+    let style = r.below(4);
+    let ws = |r: &mut Rng| match r.below(4) {
+        0 => " ",
+        1 => "  ",
+        2 => "\t",
+        _ => "",
+    };
+    let mut s = String::new();
+    if style >= 2 {
+        s.push_str(ws(r));
+    }
+    for ch in clean.chars() {
+        let c = if r.chance(0.3) { ch.to_ascii_uppercase() } else { ch };
+        if style >= 1 && (ch == ',' || ch == '|') {
+            s.push_str(ws(r));
+            s.push(c);
+            s.push_str(ws(r));
+        } else {
+            s.push(c);
+        }
+    }
+    if style >= 2 {
+        s.push_str(ws(r));
+    }
+    let padded = s.chars().any(|c| c.is_whitespace());
+    let mut labels = vec![format!("namedcal:python-constructor:{}-spelling", if padded { "padded" } else { "plain" })];
+    match NamedCal::verif_py_new(s.clone()) {
+        Ok(c) => {
+            labels.push(format!("namedcal:python-constructor:{}-spelling:accepted", if padded { "padded" } else { "plain" }));
+            (c, s, labels)
+        }
+        Err(()) => {
+            labels.push(format!("namedcal:python-constructor:{}-spelling:refused", if padded { "padded" } else { "plain" }));
+            (NamedCal::try_new(&clean).unwrap(), s, labels)
+        }
+    }
+}
+
 pub fn gen_caltype(r: &mut Rng) -> CalType {
     match r.below(3) {
         0 => CalType::Cal(gen_cal(r)),
